@@ -539,4 +539,28 @@ def parse (maxDepth : Nat) (toks : List Tok) : TRes Template :=
   | .panic m => .panic m
   | .fuel => .fuel
 
+/-! ### what the filtered lexer emits (hypothesis of the totality theorem, checked by the driver) -/
+
+/-- the three states of `basic_tokenize` -/
+inductive LexSt where
+  | tpl | var | tag
+  deriving Repr, DecidableEq
+
+/-- The shape of a token stream after the whitespace filter: in `Template` state only Content /
+VariableStart / TagStart come out, inside `{{ }}` / `{% %}` none of these and the matching end
+token leads back to `Template`; a lexer error ends the stream (lexer.rs `errored`).  This is what
+`Tera.C06.template_state_tokens` and `filter_removes_raw_and_comment` establish for the lexer
+model, transported to the parser's token type. -/
+def shaped : LexSt → List Tok → Bool
+  | _, [] => true
+  | st, t :: rest =>
+    match t with
+    | .error => rest.isEmpty
+    | .content _ => st == .tpl && shaped .tpl rest
+    | .variableStart _ => st == .tpl && shaped .var rest
+    | .tagStart _ => st == .tpl && shaped .tag rest
+    | .variableEnd _ => st == .var && shaped .tpl rest
+    | .tagEnd _ => st == .tag && shaped .tpl rest
+    | _ => st != .tpl && shaped st rest
+
 end Tera.TParser
